@@ -137,7 +137,9 @@ class Judge:
 
 def plan(tier, seed):
     variants = G.fault_variants(tier, seed)
-    rots = list(range(len(D.SENTINELS))) if tier == 'thorough' else list(range(0, len(D.SENTINELS), 6))
+    # quick: two rotations per (variant, mode), shifted by variant and mode so that over the variants of one family
+    # (same token and placement, all positions) every sentinel gets to be the first observation after the fault
+    rots = list(range(len(D.SENTINELS))) if tier == 'thorough' else [0, len(D.SENTINELS) // 2]
     n_sys = len(variants) * len(G.MODES) * len(rots)
     spec = _spec_docs()
     pairs = (G.pair_histories(tier) + G.nest_histories(tier) + G.cross_histories(tier) + G.toc_histories(tier)
@@ -157,7 +159,7 @@ def job(pl, tier, seed, g, extra_docs=None):
         per_v = len(G.MODES) * len(rots)
         v = pl['variants'][g // per_v]
         m = (g % per_v) // len(rots)
-        rot = rots[g % len(rots)]
+        rot = (rots[g % len(rots)] + (g // per_v) * 5 + m * 3) % len(D.SENTINELS)
         return 'sys', g, G.systematic_history(v, G.MODES[m], rot), v
     g2 = g - pl['n_sys']
     if g2 < pl['n_pairs']:
